@@ -7,6 +7,7 @@ which computed style tokens / xml:space / xml:lang).  spec/Trace_Imsc.tla comput
 from __future__ import annotations
 
 import logging
+import zlib
 import xml.etree.ElementTree as et
 from fractions import Fraction
 
@@ -228,6 +229,23 @@ def render(doc, override=None):
     last = None
     for k in nd["kids"]:
       kd = N[k - 1]
+      if kd["kind"] == "text" and doc.get("ignorable") and zlib.crc32(repr((doc["ignorable"], i, k)).encode()) % 3 == 0:
+        # something that is NOT content in front of the text (which then is its tail in the XML tree): an element in a foreign
+        # namespace with content of its own, a comment, a processing instruction, TT metadata
+        which = zlib.crc32(repr((k, doc["ignorable"])).encode()) % 4
+        if which == 0:
+          last = et.SubElement(el, "{urn:example:foreign}note", {"begin": "1s", "{urn:example:foreign}a": "1"})
+          last.text = "IGNORED"
+          et.SubElement(last, "{urn:example:foreign}inner").tail = "IGNORED"
+        elif which == 1:
+          last = et.Comment(" not content ")
+          el.append(last)
+        elif which == 2:
+          last = et.ProcessingInstruction("app", "not content")
+          el.append(last)
+        else:
+          last = et.SubElement(el, qn(NS_TT, "metadata"))
+          et.SubElement(last, "{http://www.w3.org/ns/ttml#metadata}desc").text = "IGNORED"
       if kd["kind"] == "text":
         if last is None:
           el.text = (el.text or "") + kd["tag"]
@@ -272,7 +290,9 @@ def _respell_colours(root, spell, keep):
 def reparse(tree):
   """Serialise and parse again, so that the reader sees what an XML parser delivers."""
   data = et.tostring(tree.getroot(), encoding="utf-8", xml_declaration=True)
-  return et.ElementTree(et.fromstring(data)), data
+  # (the caller's parser keeps comments and processing instructions in the tree, as lxml and TreeBuilder(insert_comments) do)
+  parser = et.XMLParser(target=et.TreeBuilder(insert_comments=True, insert_pis=True))
+  return et.ElementTree(et.fromstring(data, parser=parser)), data
 
 
 # ---- logging -----------------------------------------------------------------------------------
